@@ -29,6 +29,8 @@ fn main() {
 
     let mut all: Vec<(Vec<ABlock>, AAuth)> = corpus();
     let n_corpus = all.len();
+    // rules asked through Authorizer::query / query_all after each clean run
+    let mut probes: Vec<Vec<ARule>> = all.iter().map(|_| vec![]).collect();
     for _ in 0..n {
         let mut g = AGen { d: DGen { rng: rng.fork(), risky: false }, nblocks: 0 };
         g.d.risky = g.d.rng.chance(1, 2);
@@ -60,9 +62,30 @@ fn main() {
                 scopes: vec![],
             });
         }
+        if all.len() % 3 == 1 {
+            // the authorizer restates the authority block's facts: the same answer is then
+            // reachable under two origins
+            a.facts.extend(blocks[0].facts.iter().cloned());
+        }
+        let mut ps: Vec<ARule> = (0..2).map(|_| g.probe()).collect();
+        if let Some((name, args)) = a.facts.first().cloned() {
+            // every fact of one predicate, whatever its origin
+            let vars: Vec<DTerm> = (0..args.len() as u32).map(DTerm::Var).collect();
+            ps.push(ARule {
+                rule: DRule {
+                    head: DPred { name: "probe".into(), args: vars.clone() },
+                    body: vec![DPred { name, args: vars }],
+                    exprs: vec![],
+                },
+                scopes: vec![],
+            });
+        }
+        probes.push(ps);
         all.push((blocks, a));
     }
     let mut gs = vec![];
+    let mut queries_vary: Vec<usize> = vec![];
+    let mut query_observations = 0u64;
     let mut hist: BTreeMap<String, u64> = BTreeMap::new();
     let mut multi = vec![];
     let mut worlds_vary: Vec<usize> = vec![];
@@ -85,6 +108,7 @@ fn main() {
         }
         let mut observed: Vec<Outcome> = vec![];
         let mut worlds: Vec<Vec<DFact>> = vec![];
+        let mut qobs: Vec<Vec<(QObs, QObs)>> = vec![];
         let reps = if i < n_corpus { m * 4 } else { m };
         for k in 0..reps {
             // same contents, another insertion order of facts and rules
@@ -96,11 +120,18 @@ fn main() {
             let run = if k % 3 == 2 {
                 run_auth_cloned(blocks, &a2, limits, &keys, &mut rng)
             } else {
-                let r = run_auth(blocks, &a2, limits, &keys, &mut rng);
+                let r = run_auth_q(blocks, &a2, limits, &keys, &mut rng, &probes[i]);
                 // what queries would observe: the facts with their origins after a clean run
                 if let (Some(fs), false) = (&r.facts, matches!(r.outcome, Outcome::Exec | Outcome::Limit(_) | Outcome::Other(_) | Outcome::Panic)) {
                     if !worlds.contains(fs) {
                         worlds.push(fs.clone());
+                    }
+                    // the answers of Authorizer::query (one per origin and fact) and query_all,
+                    // as multisets
+                    let qo: Vec<(QObs, QObs)> = r.queries.iter().map(|(_, a, b)| (a.clone(), b.clone())).collect();
+                    query_observations += qo.len() as u64;
+                    if !qobs.contains(&qo) {
+                        qobs.push(qo);
                     }
                 }
                 r.outcome
@@ -123,6 +154,9 @@ fn main() {
         }
         if worlds.len() > 1 {
             worlds_vary.push(i);
+        }
+        if qobs.len() > 1 {
+            queries_vary.push(i);
         }
         let first = ARun { outcome: observed[0].clone(), facts: None, iterations: 0, queries: vec![] };
         let base = g_acase(blocks, a, limits, &first);
@@ -167,7 +201,7 @@ fn main() {
     let hist_s: Vec<String> = hist.iter().map(|(k, v)| format!("{}: {}", jstr(k), v)).collect();
     let files_s: Vec<String> = files.iter().chain(kfiles.iter()).map(|p| jstr(p)).collect();
     println!(
-        "{{\"family\": \"determinism\", \"evaluations\": {}, \"corpus\": {}, \"runs_per_case\": {}, \"cases_with_tight_iteration_budget\": {}, \"authorize_runs\": {}, \"distinct_nontrivial\": {}, \"observed_outcome_count_histogram\": {{{}}}, \"cases_with_several_outcomes\": {:?}, \"cases_whose_derived_facts_vary\": {:?}, \"panics\": {:?}, \"samples\": [{}], \"kernel_sample\": {}, \"kernel_indices_stride\": {}, \"files\": [{}]}}",
+        "{{\"family\": \"determinism\", \"evaluations\": {}, \"corpus\": {}, \"runs_per_case\": {}, \"cases_with_tight_iteration_budget\": {}, \"authorize_runs\": {}, \"distinct_nontrivial\": {}, \"observed_outcome_count_histogram\": {{{}}}, \"cases_with_several_outcomes\": {:?}, \"cases_whose_derived_facts_vary\": {:?}, \"query_observations\": {}, \"cases_whose_query_answers_vary\": {:?}, \"panics\": {:?}, \"samples\": [{}], \"kernel_sample\": {}, \"kernel_indices_stride\": {}, \"files\": [{}]}}",
         all.len(),
         n_corpus,
         m,
@@ -177,6 +211,8 @@ fn main() {
         hist_s.join(", "),
         multi,
         worlds_vary,
+        query_observations,
+        queries_vary,
         panics,
         samples.iter().map(|s| jstr(s)).collect::<Vec<_>>().join(", "),
         sample.len(),
